@@ -3,11 +3,11 @@
 PROP = {'engine': 'rc',
  'lean_props': ['MuscleModel.Props.C10'],
  'harnesses': [{'name': 'rc', 'sources': ['harness/rc.cpp']}],
- 'trusted_base': ['hand-written Lean interleaving model of Ref/RefCountable (lean/MuscleModel/Conc/RefCount.lean) and ObjectPool (lean/MuscleModel/Conc/Pool.lean): one '
-                  'step = one AtomicCounter operation on a reference count, one critical section of the pool\'s _mutex, the slab delete outside the lock, or one plain '
-                  'local action',
-                  'the cooperative scheduler harness/libvh/coop.h and the MUSCLE_VERIF_HOOKS hook sites (AtomicCounter, Mutex): the real threads are serialised at '
-                  'those points (plus the harness\'s own yield points at the start of every operation, inside `delete slabToDelete`, and - by '
+ 'trusted_base': ['hand-written Lean interleaving model of Ref/RefCountable (lean/MuscleModel/Conc/RefCount.lean) and ObjectPool '
+                  "(lean/MuscleModel/Conc/Pool.lean): one step = one AtomicCounter operation on a reference count, one critical section of the pool's _mutex, "
+                  'the slab delete outside the lock, or one plain local action',
+                  'the cooperative scheduler harness/libvh/coop.h and the MUSCLE_VERIF_HOOKS hook sites (AtomicCounter, Mutex): the real threads are '
+                  "serialised at those points (plus the harness's own yield points at the start of every operation, inside `delete slabToDelete`, and - by "
                   'interposing on pthread_mutex_unlock - right after ReleaseObject() has released the pool mutex)',
                   'std::atomic<int32> increments/decrements are atomic and std::recursive_mutex excludes (modelled, not verified)',
                   'the instrumented test class Obj (constructor/destructor/assignment counters, canary) of harness/rc.cpp'],
@@ -16,46 +16,50 @@ PROP = {'engine': 'rc',
                  'documentation of Ref requires',
                  'a non-counting Ref (SetRef(p,false), copies of one, Neutralize) is never dereferenced and is promoted only while another slot of the same '
                  'thread counts the same object (a dangling non-counting Ref is allowed by the documented semantics; dereferencing it is a user error)',
-                 'an object\'s own `next` reference is modified only by a thread that holds the ONLY reference to that object (IsRefPrivate), never made to '
+                 "an object's own `next` reference is modified only by a thread that holds the ONLY reference to that object (IsRefPrivate), never made to "
                  'point to the object itself: reference cycles (which reference counting cannot free) are excluded',
                  'counters below 2^32 (maxPool + objects-per-slab < 2^32), no allocation failure',
-                 'AtomicCounter operations are single indivisible steps: a split inside AtomicIncrement/AtomicDecrement (e.g. `--_count; return GetCount()==0;`) '
-                 'is invisible at the hook granularity (the hook sits before the operation): for such races the check relies on the `stress` lines, which are '
-                 'testing by provocation with real threads and prove nothing'],
+                 'AtomicCounter operations are single indivisible steps: a split inside AtomicIncrement/AtomicDecrement (e.g. `--_count; return '
+                 'GetCount()==0;`) is invisible at the hook granularity (the hook sits before the operation): for such races the check relies on the `stress` '
+                 'lines, which are testing by provocation with real threads and prove nothing'],
  'rule': 'one op line = pool parameters (objects per slab 1-4 chosen through the slab-size template parameter, maxPoolSize) + 1-4 thread programs over '
-         'new-heap/obtain/copy/SetRef/Reset/swap/hand-off/payload-write/const-cast/link/unlink/pop (objects hold a `next` Ref: linked lists, cascading release)/'
-         'non-counting alias/promote/demote/Neutralize + a schedule, executed on real threads against the real '
-         'Ref/RefCountable/ObjectPool under the deterministic cooperative scheduler and on the Lean interleaving model; per step the observable events (object '
-         'created, slab created, object handed out and its payload, object reset on release, heap object destroyed, slab destroyed) with first-seen identities and '
-         'the (identity, refcount, payload, next) tuples of all live objects, at the end _curPoolSize and the in-use counts of the slab list must agree; schedules are '
-         'enumerated behind a set-up prefix (shared object, linked list shared by its head, non-counting aliases, pool contention) up to 2 (quick) / 3 (thorough) preemptions per program (capped, fewest preemptions first) plus random event lists plus '
-         'single-threaded histories; direct oracle: destroyed/recycled exactly once and only with count 0 and no visible reference, no Ref to a released object, '
-         'count = visible references (counting slots + `next` members of live objects) when no operation is in progress, nothing leaks, an object handed out is in the default state and not handed out already, '
-         'free lists acyclic and disjoint from handed-out nodes, _curPoolSize = free nodes, PerformSanityCheck() after every step; distinct = distinct case bodies.  '
-         'TESTING, NOT PROOF: each shard additionally runs 7 `stress` lines (lastrefs / churn / pop with 2-4 REAL UNSCHEDULED threads released from a spin '
-         'barrier; 200000/60000/30000/20000/10000/50000/20000 rounds, x10 in the thorough tier) whose expected result is a constant that the Lean engine merely '
-         'echoes; they provoke races below the hook granularity (oracle: exactly one release per shared object, nothing handed out twice, popped successor '
-         'alive, pool all free, PerformSanityCheck, ASan)'}
+         'new-heap/obtain/copy/SetRef/Reset/swap/hand-off/payload-write/const-cast/link/unlink/pop (objects hold a `next` Ref: linked lists, cascading '
+         'release)/non-counting alias/promote/demote/Neutralize + a schedule, executed on real threads against the real Ref/RefCountable/ObjectPool under the '
+         'deterministic cooperative scheduler and on the Lean interleaving model; per step the observable events (object created, slab created, object handed '
+         'out and its payload, object reset on release, heap object destroyed, slab destroyed) with first-seen identities and the (identity, refcount, '
+         'payload, next) tuples of all live objects, at the end _curPoolSize and the in-use counts of the slab list must agree; schedules are enumerated '
+         'behind a set-up prefix (shared object, linked list shared by its head, non-counting aliases, pool contention) up to 2 (quick) / 3 (thorough) '
+         'preemptions per program (capped, fewest preemptions first) plus random event lists plus single-threaded histories; direct oracle: destroyed/recycled '
+         'exactly once and only with count 0 and no visible reference, no Ref to a released object, count = visible references (counting slots + `next` '
+         'members of live objects) when no operation is in progress, nothing leaks, an object handed out is in the default state and not handed out already, '
+         'free lists acyclic and disjoint from handed-out nodes, _curPoolSize = free nodes, PerformSanityCheck() after every step; distinct = distinct case '
+         'bodies.  TESTING, NOT PROOF: each shard additionally runs 7 `stress` lines (lastrefs / churn / pop with 2-4 REAL UNSCHEDULED threads released from a '
+         'spin barrier; 200000/60000/30000/20000/10000/50000/20000 rounds, x10 in the thorough tier) whose expected result is a constant that the Lean engine '
+         'merely echoes; they provoke races below the hook granularity (oracle: exactly one release per shared object, nothing handed out twice, popped '
+         'successor alive, pool all free, PerformSanityCheck, ASan)',
+ 'timeout': 1500,
+ 'gen_timeout': 1500}
 
 TEXT = {'design_ref': 'DESIGN.md section 4, C10 (and 3.5 for the hooks and the cooperative scheduler)',
- 'technique': 'Lean 4 theorems over a small-step interleaving model of Ref/RefCountable and ObjectPool (every schedule, any number of threads and objects, all pool '
-              'parameters: one joint invariant proved by induction over the schedule) + differential correspondence: the same thread programs and schedules run on '
-              'real threads against the real code under a deterministic cooperative scheduler (hooks in AtomicCounter/Mutex) and on the model',
- 'text': 'Proved in Lean for every reachable configuration of the model (all programs, all schedules, all slab sizes >= 1 and pool limits): the reference count of '
-         'every object equals the number of references to it (slots of all threads, global slots, pending decrements); an object with any reference is alive '
-         '(never released early), also when the reference is the `next` member of another live object (linked lists; the cascading release of a chain is '
-         'modelled step by step); assigning a Ref from the `next` reference held inside the object it points to (head = head()->next) keeps the successor alive '
-         '(assign_from_owned_ref_safe; old_order_counterexample shows the state the pre-3dba531 order of SetRef() reaches); non-counting Refs do not count, '
-         'promotion/demotion/Neutralize keep count = references; hand-outs = releases + (1 if alive), a heap object is released at most once, a released object has count 0 and no references; '
-         'pool bookkeeping: every slab\'s free list is an acyclic duplicate-free chain of exactly the nodes not handed out, its length + nodes-in-use = slab size, '
-         'slab identities distinct, _curPoolSize = free nodes of the listed slabs; the node ObtainObjectAux hands out is free, not alive, unreferenced, in the '
-         'default state, and a handed-out raw pointer belongs to one thread only; a slab about to be deleted outside the lock has no node in use, is off the slab '
-         'list for good and none of its objects is alive or referenced.  All theorems are full strength (no _partial).  The model is tied to the C++ code by '
-         'running both on the same programs and schedules (bounded-preemption exhaustive behind a set-up prefix + random + single-threaded) and by direct oracles '
-         'on the real objects and pool.',
- 'note': 'Sequential consistency of the hooked steps, counters < 2^32, no allocation failure; only reference-counting Refs; a Ref object is private to one thread '
-         '(hand-off through mailboxes); next members are changed only through a private reference; non-counting Refs are never dereferenced.  Finding '
+ 'technique': 'Lean 4 theorems over a small-step interleaving model of Ref/RefCountable and ObjectPool (every schedule, any number of threads and objects, all '
+              'pool parameters: one joint invariant proved by induction over the schedule) + differential correspondence: the same thread programs and '
+              'schedules run on real threads against the real code under a deterministic cooperative scheduler (hooks in AtomicCounter/Mutex) and on the model',
+ 'text': 'Proved in Lean for every reachable configuration of the model (all programs, all schedules, all slab sizes >= 1 and pool limits): the reference '
+         'count of every object equals the number of references to it (slots of all threads, global slots, pending decrements); an object with any reference '
+         'is alive (never released early), also when the reference is the `next` member of another live object (linked lists; the cascading release of a chain '
+         'is modelled step by step); assigning a Ref from the `next` reference held inside the object it points to (head = head()->next) keeps the successor '
+         'alive (assign_from_owned_ref_safe; old_order_counterexample shows the state the pre-3dba531 order of SetRef() reaches); non-counting Refs do not '
+         'count, promotion/demotion/Neutralize keep count = references; hand-outs = releases + (1 if alive), a heap object is released at most once, a '
+         "released object has count 0 and no references; pool bookkeeping: every slab's free list is an acyclic duplicate-free chain of exactly the nodes not "
+         'handed out, its length + nodes-in-use = slab size, slab identities distinct, _curPoolSize = free nodes of the listed slabs; the node ObtainObjectAux '
+         'hands out is free, not alive, unreferenced, in the default state, and a handed-out raw pointer belongs to one thread only; a slab about to be '
+         'deleted outside the lock has no node in use, is off the slab list for good and none of its objects is alive or referenced.  All theorems are full '
+         'strength (no _partial).  The model is tied to the C++ code by running both on the same programs and schedules (bounded-preemption exhaustive behind '
+         'a set-up prefix + random + single-threaded) and by direct oracles on the real objects and pool.',
+ 'note': 'Sequential consistency of the hooked steps, counters < 2^32, no allocation failure; only reference-counting Refs; a Ref object is private to one '
+         'thread (hand-off through mailboxes); next members are changed only through a private reference; non-counting Refs are never dereferenced.  Finding '
          'C10-assign-from-owned-ref (fixed in /repo 3dba531) has its regression in corpus/C10/rc-regress-assign-from-owned-ref.ops.  Not visible at the hook '
          'granularity: a split inside AtomicDecrement itself; the `stress` op (real unscheduled threads, constant expected result, echoed by the model) is '
-         'there to PROVOKE such races - it is testing, not proof, and its absence of failures supports no theorem.  Not proved: absence of leaks as a theorem (the harness checks it: alive but unreferenced / not everything released at the '
-         'end is an oracle failure).  Trusted: Lean kernel, statement file, scheduler + hooks, sampling correspondence.'}
+         'there to PROVOKE such races - it is testing, not proof, and its absence of failures supports no theorem.  Not proved: absence of leaks as a theorem '
+         '(the harness checks it: alive but unreferenced / not everything released at the end is an oracle failure).  Trusted: Lean kernel, statement file, '
+         'scheduler + hooks, sampling correspondence.'}
